@@ -6,6 +6,7 @@ import (
 	"fmt"
 	"io"
 	"strings"
+	"sync"
 
 	"github.com/jdillenkofer/pithos/internal/storage/database"
 	"github.com/jdillenkofer/pithos/internal/storage/metadatapart/partstore"
@@ -52,8 +53,15 @@ func (d *DB) BeginTx(ctx context.Context, opts *sql.TxOptions) (*database.TxCont
 		}
 		return nil, err
 	}
+	if !readOnly {
+		txLocks.Store(tx.SqlTx(), d.lock()) // outer wrappers (the GC's) re-wrap the *sql.Tx in their own controller
+	}
 	return database.NewTxController(tx.SqlTx(), d, readOnly), nil
 }
+
+// txLocks: *sql.Tx of a write transaction -> name of the modelled writer connection it holds.
+var txLocks sync.Map
+
 func (d *DB) lock() string { return WriterLock + d.Name }
 
 func (d *DB) PingContext(ctx context.Context) error  { return d.Inner.PingContext(ctx) }
@@ -96,8 +104,8 @@ func InstallTxHooks(extra func(site string, args ...any)) func() {
 		release := func() {
 			lock := WriterLock
 			if tc != nil {
-				if d, ok := tc.DBHandle().(*DB); ok {
-					lock = d.lock()
+				if l, ok := txLocks.Load(tc.SqlTx()); ok {
+					lock = l.(string)
 				}
 			}
 			if tc != nil && !tc.ReadOnly() && s.Holder(lock) == s.Me() {
@@ -107,6 +115,9 @@ func InstallTxHooks(extra func(site string, args ...any)) func() {
 		switch site {
 		case "tx.finalized":
 			release()
+			if tc != nil {
+				txLocks.Delete(tc.SqlTx())
+			}
 		case "tx.commit.after", "tx.rollbackhook":
 			// database/sql has returned the writer connection to the pool at this point
 			release()
